@@ -447,6 +447,30 @@ namespace sim
             g->ev({ "t", vm->id, g->ctx_id(r, act.get()), render(right), g->instr, g->clock_ns });
             return {};
         }));
+        rt.register_sqfop(unary("heap__", t_array(), "heap dump marker: [id, number of roots, locals...]", [](runtime& r, value::cref right) -> value {
+            auto vm = g->vm_of(r);
+            auto act = r.context_active_as_shared();
+            auto arr = right.data<sqf::types::d_array>();
+            std::string out = "[";
+            out += arr->size() > 0 ? render(arr->at(0)) : std::string("nil");
+            out += ",\"S\",[";
+            int n = arr->size() > 1 ? (int)arr->at(1).data_try<sqf::types::d_scalar, float>(0) : 0;
+            const auto& scope = *r.default_value_scope();
+            for (int i = 0; i < n; i++)
+            {
+                if (i) out += ",";
+                out += render(scope.at("g" + std::to_string(i)));
+            }
+            out += "],[";
+            for (size_t i = 2; i < arr->size(); i++)
+            {
+                if (i > 2) out += ",";
+                out += render(arr->at(i));
+            }
+            out += "]]";
+            g->ev({ "t", vm->id, g->ctx_id(r, act.get()), out, g->instr, g->clock_ns });
+            return {};
+        }));
         rt.register_sqfop(nular("fault__", "raises an error-level diagnostic", [](runtime& r) -> value {
             g->faults_fired["fault_op"]++;
             r.__logmsg(logmessage::runtime::ErrorMessage(r.context_active().current_frame().diag_info_from_position(), "FAULTOP", "fault__"));
